@@ -10,15 +10,18 @@ Directives.vos Directives.vok Directives.required_vos: Directives.v Ast.vos
 Erase.vo Erase.glob Erase.v.beautified Erase.required_vo: Erase.v Ast.vo Generated.vo HookSites.vo Directives.vo
 Erase.vio: Erase.v Ast.vio Generated.vio HookSites.vio Directives.vio
 Erase.vos Erase.vok Erase.required_vos: Erase.v Ast.vos Generated.vos HookSites.vos Directives.vos
-Extract.vo Extract.glob Extract.v.beautified Extract.required_vo: Extract.v Ast.vo Generated.vo Config.vo Model.vo HookSites.vo Known.vo Directives.vo Erase.vo Sites.vo
-Extract.vio: Extract.v Ast.vio Generated.vio Config.vio Model.vio HookSites.vio Known.vio Directives.vio Erase.vio Sites.vio
-Extract.vos Extract.vok Extract.required_vos: Extract.v Ast.vos Generated.vos Config.vos Model.vos HookSites.vos Known.vos Directives.vos Erase.vos Sites.vos
+Extract.vo Extract.glob Extract.v.beautified Extract.required_vo: Extract.v Ast.vo Generated.vo Config.vo Model.vo HookSites.vo Known.vo Directives.vo Erase.vo Sites.vo Hygiene.vo Shapes.vo
+Extract.vio: Extract.v Ast.vio Generated.vio Config.vio Model.vio HookSites.vio Known.vio Directives.vio Erase.vio Sites.vio Hygiene.vio Shapes.vio
+Extract.vos Extract.vok Extract.required_vos: Extract.v Ast.vos Generated.vos Config.vos Model.vos HookSites.vos Known.vos Directives.vos Erase.vos Sites.vos Hygiene.vos Shapes.vos
 Generated.vo Generated.glob Generated.v.beautified Generated.required_vo: Generated.v 
 Generated.vio: Generated.v 
 Generated.vos Generated.vok Generated.required_vos: Generated.v 
 HookSites.vo HookSites.glob HookSites.v.beautified HookSites.required_vo: HookSites.v Ast.vo Generated.vo
 HookSites.vio: HookSites.v Ast.vio Generated.vio
 HookSites.vos HookSites.vok HookSites.required_vos: HookSites.v Ast.vos Generated.vos
+Hygiene.vo Hygiene.glob Hygiene.v.beautified Hygiene.required_vo: Hygiene.v Ast.vo Generated.vo Directives.vo Erase.vo
+Hygiene.vio: Hygiene.v Ast.vio Generated.vio Directives.vio Erase.vio
+Hygiene.vos Hygiene.vok Hygiene.required_vos: Hygiene.v Ast.vos Generated.vos Directives.vos Erase.vos
 Known.vo Known.glob Known.v.beautified Known.required_vo: Known.v Ast.vo Generated.vo
 Known.vio: Known.v Ast.vio Generated.vio
 Known.vos Known.vok Known.required_vos: Known.v Ast.vos Generated.vos
@@ -28,6 +31,9 @@ Model.vos Model.vok Model.required_vos: Model.v Ast.vos Generated.vos Config.vos
 P_Telemetry.vo P_Telemetry.glob P_Telemetry.v.beautified P_Telemetry.required_vo: P_Telemetry.v Ast.vo Generated.vo Config.vo Model.vo
 P_Telemetry.vio: P_Telemetry.v Ast.vio Generated.vio Config.vio Model.vio
 P_Telemetry.vos P_Telemetry.vok P_Telemetry.required_vos: P_Telemetry.v Ast.vos Generated.vos Config.vos Model.vos
+Shapes.vo Shapes.glob Shapes.v.beautified Shapes.required_vo: Shapes.v Ast.vo Generated.vo HookSites.vo Erase.vo
+Shapes.vio: Shapes.v Ast.vio Generated.vio HookSites.vio Erase.vio
+Shapes.vos Shapes.vok Shapes.required_vos: Shapes.v Ast.vos Generated.vos HookSites.vos Erase.vos
 Sites.vo Sites.glob Sites.v.beautified Sites.required_vo: Sites.v Ast.vo Generated.vo HookSites.vo
 Sites.vio: Sites.v Ast.vio Generated.vio HookSites.vio
 Sites.vos Sites.vok Sites.required_vos: Sites.v Ast.vos Generated.vos HookSites.vos
